@@ -328,7 +328,7 @@ func runIter(c *Case, tree *Tree) string {
 	if err != nil {
 		return "cerr"
 	}
-	extra, _ := strconv.Atoi(c.Extra)
+	extra, _ := strconv.Atoi(strings.SplitN(c.Extra, ";", 2)[0]) // "N" or "N;flat"
 	it := e.Select(tree.At(c.Ctx, !c.NoNS))
 	var rs []Ref
 	for it.MoveNext() {
